@@ -715,3 +715,75 @@ Section PipelineComplete.
         * discriminate.
   Qed.
 End PipelineComplete.
+
+(* ------------------------------------------------------------ from the raw records *)
+Lemma is_gpf_shape c o code flags nparams info0 address :
+  is_gpf (os_class o) (reason_of c o code flags nparams info0) address = true ->
+  (o = GOsWindows /\ code = WIN_EXCEPTION_ACCESS_VIOLATION /\ 1 <= nparams /\ info0 = WIN_ACCESS_READ /\ address = two64 - 1) \/
+  (o = GOsMacOs /\ code = MAC_EXC_BAD_ACCESS /\ flags = MAC_EXC_I386_GPFLT /\ address = 0 /\ (c = GX86 \/ c = GX86_64)) \/
+  (o = GOsLinux /\ (code = LINUX_SIGSEGV \/ code = LINUX_SIGBUS) /\ flags = LINUX_SI_KERNEL /\ address = 0).
+Proof.
+  destruct o; unfold reason_of; cbn [os_class g_reason_family Z.eqb Pos.eqb]; cbv iota;
+    try (intros H; match type of H with is_gpf OsOther _ _ = true => destruct (_ : reason) in H; discriminate H end).
+  - (* Windows *)
+    destruct ((code =? WIN_EXCEPTION_ACCESS_VIOLATION) && (1 <=? nparams) && existsb (Z.eqb info0) WIN_ACCESS_TYPES) eqn:E;
+      [|intros H; discriminate H].
+    cbn [is_gpf]. intros H. apply andb_prop in H. destruct H as [H1 H2].
+    apply andb_prop in E. destruct E as [E _]. apply andb_prop in E. destruct E as [E1 E2].
+    left. repeat split; lia.
+  - (* macOS *)
+    destruct ((code =? MAC_EXC_BAD_ACCESS) && negb (existsb (Z.eqb flags) MAC_BAD_ACCESS_KERN_TYPES) &&
+              (gcpu_eqb c GX86 || gcpu_eqb c GX86_64) && (flags =? MAC_EXC_I386_GPFLT)) eqn:E; [|intros H; discriminate H].
+    cbn [is_gpf]. intros H.
+    apply andb_prop in E. destruct E as [E E4]. apply andb_prop in E. destruct E as [E E3]. apply andb_prop in E. destruct E as [E1 _].
+    right. left. repeat split; try lia.
+    apply orb_prop in E3. destruct E3 as [E3|E3]; destruct c; cbn in E3; try discriminate; first [left; reflexivity | right; reflexivity].
+  - (* Linux *)
+    destruct ((code =? LINUX_SIGSEGV) && negb (existsb (Z.eqb flags) LINUX_SIGSEGV_KINDS)) eqn:E1.
+    + cbn [is_gpf]. intros H. apply andb_prop in H. destruct H as [H H3]. apply andb_prop in H. destruct H as [_ H2].
+      apply andb_prop in E1. destruct E1 as [E1 _]. right. right. repeat split; lia.
+    + destruct ((code =? LINUX_SIGBUS) && negb (existsb (Z.eqb flags) LINUX_SIGBUS_KINDS)) eqn:E2; [|intros H; discriminate H].
+      cbn [is_gpf]. intros H. apply andb_prop in H. destruct H as [H H3]. apply andb_prop in H. destruct H as [_ H2].
+      apply andb_prop in E2. destruct E2 as [E2 _]. right. right. repeat split; lia.
+Qed.
+
+Section DumpProofs.
+  Variable analysis : pcontext -> option op_analysis.
+
+  Lemma dump_none_platform arch platform_id e pc rs :
+    ~ (arch = 9 \/ arch = 32770 \/ arch = 32772) ->
+    dump_pipeline analysis arch platform_id e pc rs = [].
+  Proof. intros H. unfold dump_pipeline, dump_cpu. apply none_platform_arch. exact H. Qed.
+
+  (* bits 48..64 are searched only for an AMD64 dump whose exception record has one of the three GPF shapes *)
+  Lemma dump_noncanonical_shape arch platform_id e pc v :
+    dump_adj analysis arch platform_id e pc = GAdjNonCanonical v ->
+    arch = 9 /\ in_non_canonical v = true /\
+    let o := dump_os platform_id in
+    let address := dump_address arch platform_id e in
+    (o = GOsWindows /\ er_code e = WIN_EXCEPTION_ACCESS_VIOLATION /\ 1 <= er_nparams e /\ er_info0 e = WIN_ACCESS_READ /\ address = two64 - 1) \/
+    (o = GOsMacOs /\ er_code e = MAC_EXC_BAD_ACCESS /\ er_flags e = MAC_EXC_I386_GPFLT /\ address = 0) \/
+    (o = GOsLinux /\ (er_code e = LINUX_SIGSEGV \/ er_code e = LINUX_SIGBUS) /\ er_flags e = LINUX_SI_KERNEL /\ address = 0).
+  Proof.
+    unfold dump_adj, pipeline_adj. intros H.
+    pose proof (adjusted_sound (dump_cpu arch) (os_class (dump_os platform_id)) (dump_reason arch platform_id e)
+                               (dump_address arch platform_id e) (the_analysis analysis pc)) as S.
+    rewrite H in S. destruct S as [Hc [Hg [o [l [ai [_ [_ [_ [_ [Hr _]]]]]]]]]].
+    split; [apply arch_amd64; exact Hc|]. split; [exact Hr|].
+    unfold dump_reason in Hg. apply is_gpf_shape in Hg.
+    destruct Hg as [H1|[H2|H3]]; [left; exact H1|right; left|right; right; exact H3].
+    destruct H2 as [A [B [C [D _]]]]. repeat split; assumption.
+  Qed.
+
+  (* Android, iOS, Solaris, ... : never a non-canonical adjustment *)
+  Lemma dump_noncanonical_os arch platform_id e pc v :
+    dump_adj analysis arch platform_id e pc = GAdjNonCanonical v ->
+    platform_id = 2 \/ platform_id = 3 \/ platform_id = 33025 \/ platform_id = 33281.
+  Proof.
+    intros H. apply dump_noncanonical_shape in H. destruct H as [_ [_ H]]. cbv zeta in H. unfold dump_os, os_of_platform_id in H.
+    repeat match type of H with context [platform_id =? ?k] =>
+             destruct (Z.eqb_spec platform_id k);
+             [first [lia | (cbv iota in H; destruct H as [[H _]|[[H _]|[H _]]]; discriminate H)]|] end.
+    cbv iota in H. destruct H as [[H _]|[[H _]|[H _]]]; discriminate H.
+  Qed.
+End DumpProofs.
